@@ -117,55 +117,67 @@ impl Inner {
         let descriptions = self.descriptions.read().unwrap_or_else(PoisonError::into_inner);
 
         for (name, mut by_labels) in counters.drain() {
-            let unit = descriptions.get(name.as_str()).and_then(|(desc, unit)| {
-                write_help_line(&mut output, name.as_str(), desc);
-                *unit
-            });
+            // When unit suffixes are enabled, the unit is part of the metric family's name, so that the HELP and
+            // TYPE lines name the same family that the samples belong to.
+            let description = descriptions.get(name.as_str());
+            let unit = description.and_then(|(_, unit)| *unit).filter(|_| self.enable_unit_suffix);
+            let family_name = name_with_unit_suffix(name.as_str(), unit);
+            if let Some((desc, _)) = description {
+                write_help_line(&mut output, family_name.as_str(), desc);
+            }
 
-            write_type_line(&mut output, name.as_str(), "counter");
+            write_type_line(&mut output, family_name.as_str(), "counter");
             for (labels, value) in by_labels.drain() {
                 write_metric_line::<&str, u64>(
                     &mut output,
-                    &name,
+                    &family_name,
                     None,
                     &labels,
                     None,
                     value,
-                    unit.filter(|_| self.enable_unit_suffix),
+                    None,
                 );
             }
             output.push('\n');
         }
 
         for (name, mut by_labels) in gauges.drain() {
-            let unit = descriptions.get(name.as_str()).and_then(|(desc, unit)| {
-                write_help_line(&mut output, name.as_str(), desc);
-                *unit
-            });
+            // When unit suffixes are enabled, the unit is part of the metric family's name, so that the HELP and
+            // TYPE lines name the same family that the samples belong to.
+            let description = descriptions.get(name.as_str());
+            let unit = description.and_then(|(_, unit)| *unit).filter(|_| self.enable_unit_suffix);
+            let family_name = name_with_unit_suffix(name.as_str(), unit);
+            if let Some((desc, _)) = description {
+                write_help_line(&mut output, family_name.as_str(), desc);
+            }
 
-            write_type_line(&mut output, name.as_str(), "gauge");
+            write_type_line(&mut output, family_name.as_str(), "gauge");
             for (labels, value) in by_labels.drain() {
                 write_metric_line::<&str, f64>(
                     &mut output,
-                    &name,
+                    &family_name,
                     None,
                     &labels,
                     None,
                     value,
-                    unit.filter(|_| self.enable_unit_suffix),
+                    None,
                 );
             }
             output.push('\n');
         }
 
         for (name, mut by_labels) in distributions.drain() {
-            let unit = descriptions.get(name.as_str()).and_then(|(desc, unit)| {
-                write_help_line(&mut output, name.as_str(), desc);
-                *unit
-            });
+            // When unit suffixes are enabled, the unit is part of the metric family's name, so that the HELP and
+            // TYPE lines name the same family that the samples belong to.
+            let description = descriptions.get(name.as_str());
+            let unit = description.and_then(|(_, unit)| *unit).filter(|_| self.enable_unit_suffix);
+            let family_name = name_with_unit_suffix(name.as_str(), unit);
+            if let Some((desc, _)) = description {
+                write_help_line(&mut output, family_name.as_str(), desc);
+            }
 
             let distribution_type = self.distribution_builder.get_distribution_type(name.as_str());
-            write_type_line(&mut output, name.as_str(), distribution_type);
+            write_type_line(&mut output, family_name.as_str(), distribution_type);
             for (labels, distribution) in by_labels.drain(..) {
                 let (sum, count) = match distribution {
                     Distribution::Summary(summary, quantiles, sum) => {
@@ -174,12 +186,12 @@ impl Inner {
                             let value = snapshot.quantile(quantile.value()).unwrap_or(0.0);
                             write_metric_line(
                                 &mut output,
-                                &name,
+                                &family_name,
                                 None,
                                 &labels,
                                 Some(("quantile", quantile.value())),
                                 value,
-                                unit.filter(|_| self.enable_unit_suffix),
+                                None,
                             );
                         }
 
@@ -189,22 +201,22 @@ impl Inner {
                         for (le, count) in histogram.buckets() {
                             write_metric_line(
                                 &mut output,
-                                &name,
+                                &family_name,
                                 Some("bucket"),
                                 &labels,
                                 Some(("le", le)),
                                 count,
-                                unit.filter(|_| self.enable_unit_suffix),
+                                None,
                             );
                         }
                         write_metric_line(
                             &mut output,
-                            &name,
+                            &family_name,
                             Some("bucket"),
                             &labels,
                             Some(("le", "+Inf")),
                             histogram.count(),
-                            unit.filter(|_| self.enable_unit_suffix),
+                            None,
                         );
 
                         (histogram.sum(), histogram.count())
@@ -213,21 +225,21 @@ impl Inner {
 
                 write_metric_line::<&str, f64>(
                     &mut output,
-                    &name,
+                    &family_name,
                     Some("sum"),
                     &labels,
                     None,
                     sum,
-                    unit.filter(|_| self.enable_unit_suffix),
+                    None,
                 );
                 write_metric_line::<&str, u64>(
                     &mut output,
-                    &name,
+                    &family_name,
                     Some("count"),
                     &labels,
                     None,
                     count,
-                    unit.filter(|_| self.enable_unit_suffix),
+                    None,
                 );
             }
 
@@ -239,6 +251,15 @@ impl Inner {
 
     fn run_upkeep(&self) {
         self.drain_histograms_to_distributions();
+    }
+}
+
+/// Appends the suffix for the given unit, if any, to a metric name.
+fn name_with_unit_suffix(name: &str, unit: Option<Unit>) -> String {
+    match unit {
+        Some(Unit::Count) | None => name.to_string(),
+        Some(Unit::Percent) => format!("{name}_ratio"),
+        Some(unit) => format!("{name}_{}", unit.as_str()),
     }
 }
 
